@@ -20,14 +20,15 @@ def main():
     json.dump(out, sys.stdout)
 
 
-def run_fresh(specs, timeout=120):
-    """-> list of [items, outcome] as decoded by a fresh interpreter"""
+def run_fresh(specs, timeout=120, optimize=False):
+    """-> list of [items, outcome] as decoded by a fresh interpreter (optimize: started with -O, i.e. asserts stripped -
+    PYTHONOPTIMIZE is a common production setting)"""
     import os
     import subprocess
     verif = os.path.dirname(os.path.dirname(os.path.abspath(__file__)))
     src = os.environ.get("VERIF_REPO_SRC", "/repo/src")
     env = dict(os.environ, PYTHONPATH=src + os.pathsep + verif, PYTHONDONTWRITEBYTECODE="1", PYTHONHASHSEED="0")
-    p = subprocess.run([sys.executable, "-c", "import sim.pristine as p; p.main()"], input=json.dumps(specs).encode(),
+    p = subprocess.run([sys.executable] + (["-O"] if optimize else []) + ["-c", "import sim.pristine as p; p.main()"], input=json.dumps(specs).encode(),
                        capture_output=True, env=env, timeout=timeout, cwd="/")
     if p.returncode != 0:
         raise RuntimeError("fresh interpreter failed: %s" % p.stderr.decode()[-500:])
